@@ -71,6 +71,12 @@ func runSubsys(sc subsysCfg, tier string) int {
 			cfg.Gossip = true
 			r.Count("histories_with_mempool_checks_on_the_replica", 1)
 		}
+		if os.Getenv("VERIF_NO_GOSSIP") != "" { // triage aids
+			cfg.Gossip = false
+		}
+		if os.Getenv("VERIF_NO_BYZ") != "" {
+			cfg.Byzantine = 0
+		}
 		rrng := rand.New(rand.NewSource(hseed * 5))
 		if sc.restarts {
 			cfg.Specs = []world.NodeSpec{{Name: "lead", Validator: w0.Vals[0], LogLevel: 1}, {Name: "restarter", Validator: w0.Vals[0], LogLevel: 1}}
